@@ -73,3 +73,12 @@ Definition p_store : store := {| st_criteria := p_table; st_pkgs := [(0, p_pkg);
 (* the store of corpus/C13/F-C13-regen-narrow.json as the harness interned it (generated text) *)
 Definition r_graph : depgraph_in := (Build_depgraph_in [(Build_pkg 0%N 2%N false [(Build_dep 1%nat true false false); (Build_dep 4%nat true false false); (Build_dep 2%nat false true false)] (Some (Build_policy None None []))); (Build_pkg 1%N 2%N false [(Build_dep 2%nat false true false)] (Some (Build_policy (Some [3%N]) None [(3%N, [3%N; 2%N])]))); (Build_pkg 3%N 3%N true [] (Some (Build_policy (Some [3%N; 0%N; 2%N]) None []))); (Build_pkg 3%N 5%N true [(Build_dep 4%nat true false false); (Build_dep 1%nat true true false)] (Some (Build_policy (Some [3%N; 0%N; 2%N]) None []))); (Build_pkg 4%N 5%N true [(Build_dep 2%nat false true false)] None); (Build_pkg 5%N 0%N false [(Build_dep 0%nat false true false); (Build_dep 3%nat true true false); (Build_dep 1%nat true false false)] None)] [5%nat]).
 Definition r_store : store := (Build_store [[]; [1%N]] [(0%N, (Build_pkg_store [[(Build_audit (KFull 2%N) [1%N] true true); (Build_audit (KDelta 1%N 2%N) [1%N] true false); (Build_audit (KFull 3%N) [0%N] true true)]; []] [(Build_audit (KFull 2%N) [1%N; 3%N] false false); (Build_audit (KDelta 4%N 2%N) [0%N; 3%N] true false); (Build_audit (KDelta 5%N 2%N) [3%N; 2%N; 1%N; 1%N] true false)] [[]; []] [] [] [] [] [(Build_exemption 0%N [3%N; 0%N] true); (Build_exemption 0%N [1%N] true)])); (1%N, (Build_pkg_store [[(Build_audit (KFull 1%N) [1%N] true false)]; [(Build_audit (KDelta 4%N 2%N) [1%N] true false)]] [] [[(Build_wildcard 2%N (738156)%Z (738885)%Z [0%N] false); (Build_wildcard 3%N (738521)%Z (738672)%Z [1%N] false)]; []] [] [] [] [] [])); (2%N, (Build_pkg_store [[]; []] [(Build_audit (KDelta 0%N 3%N) [1%N] false false); (Build_audit (KDelta 4%N 5%N) [0%N] false false)] [[]; []] [] [] [] [] [])); (3%N, (Build_pkg_store [[]; [(Build_audit (KDelta 3%N 5%N) [1%N] true false)]] [(Build_audit (KDelta 3%N 1%N) [0%N; 0%N] false false); (Build_audit (KDelta 3%N 5%N) [0%N; 1%N; 2%N] true false); (Build_audit (KDelta 4%N 0%N) [0%N; 1%N; 3%N; 1%N] true false); (Build_audit (KDelta 5%N 3%N) [1%N] false false)] [[]; [(Build_wildcard 3%N (738321)%Z (738885)%Z [1%N] false); (Build_wildcard 2%N (737942)%Z (738321)%Z [0%N] false)]] [] [] [(Build_publisher 0%N 2%N (738157)%Z false); (Build_publisher 5%N 3%N (738520)%Z true)] [] [(Build_exemption 5%N [1%N; 1%N] true)])); (4%N, (Build_pkg_store [[]; []] [] [[]; [(Build_wildcard 3%N (737942)%Z (738521)%Z [1%N] true)]] [] [] [(Build_publisher 4%N 1%N (737942)%Z true)] [] [])); (5%N, (Build_pkg_store [[(Build_audit (KFull 1%N) [0%N] true true); (Build_audit (KDelta 3%N 0%N) [1%N] true true); (Build_audit (KFull 0%N) [0%N] true true); (Build_audit (KDelta 1%N 0%N) [1%N] true true)]; [(Build_audit (KDelta 5%N 0%N) [1%N] true true); (Build_audit (KDelta 1%N 0%N) [1%N] true false); (Build_audit (KFull 5%N) [0%N] true true); (Build_audit (KFull 0%N) [1%N] true false)]] [(Build_audit (KFull 5%N) [1%N; 2%N; 1%N] true false); (Build_audit (KDelta 5%N 0%N) [3%N; 2%N] true false)] [[]; []] [] [] [] [(Build_unpublished 0%N 3%N false false)] []))]).
+
+(* ---- C16 / C07 witness: "a" is certified only by combining two peers (peer 0 serves the full audit of
+   version 0, peer 1 the delta 0 -> 2); "b" as before ---- *)
+Definition w_store_a_two_peers : pkg_store :=
+  {| ps_imported := [ [ {| au_kind := KFull 0; au_crit := [1]; au_importable := true; au_fresh := false |} ];
+                      [ {| au_kind := KDelta 0 2; au_crit := [1]; au_importable := true; au_fresh := true |} ] ];
+     ps_local := []; ps_wild_imported := [[]; []]; ps_wild_local := []; ps_trusted := []; ps_publishers := [];
+     ps_unpublished := []; ps_exemptions := [] |}.
+Definition w_store_two_peers : store := {| st_criteria := w_table; st_pkgs := [(0, w_store_a_two_peers); (1, w_store_b)] |}.
